@@ -379,6 +379,44 @@ func c18Messages(e *Env, u32 bool) {
 				}
 			}
 		}
+		// propagation through nesting: an element of an object list, or a nested part, with an over-long field of its own
+		for fi2 := range t.Fields {
+			f := &t.Fields[fi2]
+			if u32 || (f.Kind != "objlist" && f.Kind != "struct") {
+				continue
+			}
+			et := e.S.Lookup(t.Pkg, f.Type)
+			for _, s := range lenSites(et) {
+				if s.max > 0xFFFF {
+					continue
+				}
+				g := e.Gen(&gen.Opts{Lens: []int{2}, StrLens: []int{2}}, t.QName, f.Name, s.field.Name, s.what, "nested")
+				v := g.Value(t)
+				fv := reflect.ValueOf(v).Elem().FieldByName(f.Name)
+				var el any
+				switch {
+				case f.Kind == "objlist" && fv.Len() > 0:
+					el = fv.Index(fv.Len() - 1).Interface()
+				case f.Kind == "struct" && f.Value:
+					el = fv.Addr().Interface()
+				case f.Kind == "struct" && !fv.IsNil():
+					el = fv.Interface()
+				}
+				if el == nil {
+					continue
+				}
+				setLen(e, et, el, s, s.max+1, g)
+				_, err, p := EncodeFresh(v)
+				r.Evals(1)
+				site := fmt.Sprintf("%s.%s{%s.%s(%s)}", t.QName, f.Name, et.QName, s.field.Name, s.what)
+				if p != nil || err == nil {
+					r.Violate("C18/nested-silent-wrap/"+site, "C18/nested-silent-wrap/"+t.QName, map[string]any{"type": t.QName, "site": site, "length": s.max + 1, "panic": fmt.Sprint(p), "observed": "the enclosing message encoded 'successfully' although a nested element refused (or should have refused) its over-long field"})
+				} else {
+					acc.merge(map[string]int{"enclosing-messages-refusing-overlong-nested-field": 1})
+					r.Distinct(val.Hash(site))
+				}
+			}
+		}
 		// propagation through a frame: body with an over-long field inside its frame
 		if fi := frameOf(t); fi != nil && !u32 {
 			for _, f := range t.Fields {
